@@ -951,8 +951,8 @@ reg('C03', run_C03, ['Prop_C03.v'], BERULE + 'non-trivial = grammars with >= 2 r
     level_text="Proved in Coq (C03_lookahead): for every grammar meeting the well-formedness facts, the model's lookahead list of every reduction in every state equals {t | exists access path gamma to the state with the LR(1) item [A -> alpha ., t] valid for gamma}, i.e. the union over the canonical LR(1) states with that core; the same for the lookahead sets the model pipeline actually computes and feeds to the table generator (C03_pipeline); a warning is recorded for a cell of the pipeline's tables exactly when its candidate actions - the shift and the reductions whose lookahead set contains the symbol - meet a pair in the pairwise resolution that lacks a precedence, and such a cell has at least two candidates, i.e. is an LALR(1) conflict (C03_warning, C03_warning_pipeline, C03_warning_needs_conflict). The implementation's LA sets and warning multiset are compared with the model on every corpus grammar; the real Digraph/Traverse/Union runs against transitive union on random relations with cycles (slices built as yaccgo builds them).",
     level_note=MODEL_NOTE + ' Digraph is modelled as transitive union (saturation), the SCC bookkeeping of Traverse is tied by the differential run only.')
 reg('C04', run_C04, ['Prop_C04.v'], BERULE + 'non-trivial = grammars with precedence declarations; plus every pair of the finite (type, prec, assoc, index) grid through ResolveConflict/UseDefaultResolveConflict',
-    technique='Coq theorems by case analysis on the resolution function + exhaustive differential run of the exported ResolveConflict/UseDefaultResolveConflict + dense-cell comparison with the model',
-    level_text='Proved in Coq for all precedences/associativities/indices: shift/reduce with precedence on both sides (higher wins; equal: left reduces, right shifts, nonassoc is an error; no warning), shift/reduce default = shift with warning, reduce/reduce default = the earlier rule with warning. The exported Go functions are run on the complete finite grid against the model; every dense cell and the warning multiset of every corpus grammar are compared with the model. Whole-expression grouping is covered by comparing the values computed by the real expression parsers with the model\'s (evaluation, not a theorem).',
+    technique='Coq theorems (resolution function by cases; every cell of the emitted table = resolution of its candidates; two-way conflict cells of the emitted table; which symbol gives a rule its precedence) + exhaustive differential run of the exported ResolveConflict/UseDefaultResolveConflict + dense-cell comparison with the model + rule precedence read back against the declarations + values of real expression parsers',
+    level_text="Proved in Coq for all precedences/associativities/indices: shift/reduce with precedence on both sides (higher wins; equal: left reduces, right shifts, nonassoc is an error; no warning), shift/reduce default = shift with warning, reduce/reduce default = the earlier rule with warning (C04_sr_prec, C04_sr_same_level, C04_sr_default, C04_rr_default); at the level of the emitted tables every cell, read as the generated parsers read it, is the pairwise resolution of its candidate actions, hence the same three statements for every two-way conflict cell of the emitted table (C04_pipeline_cell, C04_pipeline_sr_prec, C04_pipeline_sr_default, C04_pipeline_rr_default); a rule carries the precedence of the symbol named by %prec (none if that symbol has no level), else of its last right-hand-side symbol with a level (C04_rule_precedence). The exported Go functions are run on the complete finite grid against the model; every dense cell and the warning multiset of every corpus grammar are compared with the model; rule and terminal precedences as the implementation reads them from files (alternatives grouped with |, %prec anywhere, tokens without a level) are compared with the declarations. Whole-expression grouping (the last sentence of the property) is covered by comparing the values computed by the real expression parsers with the model's (evaluation, not a theorem: partial).",
     level_note=MODEL_NOTE)
 reg('C05', run_C05, ['Prop_C05.v'], BERULE + 'evaluations = cells looked up through the packed arrays + random matrices through PackTable/UnPackTable + packed vs -u parser runs; non-trivial = grammars with a non-error default, matrices with an empty leading column',
     technique='Coq theorem (first-fit row displacement with check vector is lossless for every matrix and row order) + every (state,symbol) lookup through the implementation\'s packed arrays vs its dense table + random matrices through PackTable/UnPackTable + packed vs -u parsers',
